@@ -11,6 +11,7 @@ Definition single (o : op) : Prop :=
   match o with
   | AddNodes _ xs _ _ => length xs <= 1
   | AddEdges _ es _ => length es <= 1
+  | RemoveEdges _ es _ => length es <= 1
   | RemoveNodes _ xs => length xs <= 1
   | AddCpds _ cs => length cs <= 1
   | RemoveCpds _ xs => length xs <= 1
@@ -61,7 +62,7 @@ Qed.
 Lemma rejected_op_no_change s o e :
   good s -> single o -> ~ late_reject s o -> snd (step s o) = Err e -> fst (step s o) = s.
 Proof.
-  intros Hg Hs Hl. destruct o as [eb lat|a xs ws lat|a es ws|a xs|a cs|a xs|a cs|a xs ip|a|a isd ns dr ip]; simpl in *.
+  intros Hg Hs Hl. destruct o as [eb lat|a xs ws lat|a es ws|a es strict|a xs|a cs|a xs|a cs|a xs ip|a|a isd ns dr ip]; simpl in *.
   - destruct (bn_add_edges_g g_empty eb) as [g o1]. destruct o1; [|reflexivity].
     destruct (acyclicb g); [simpl; discriminate|reflexivity].
   - destruct (nth_error (ms s) a) as [m|] eqn:En; [|reflexivity].
@@ -76,6 +77,10 @@ Proof.
     destruct es as [|[u v] [|e2 r]]; simpl in *; [discriminate| |lia].
     destruct (bn_add_edge_g (bg m) u v); simpl; [discriminate|]. intros _.
     rewrite set_bg_same, log_ew_nil. apply commit_same. exact En.
+  - destruct (nth_error (ms s) a) as [m|] eqn:En; [|reflexivity].
+    destruct es as [|[u v] [|e2 r]]; simpl in *; [discriminate| |lia].
+    destruct (has_edge (bg m) u v); simpl; [discriminate|]. destruct strict; simpl; [|discriminate]. intros _.
+    rewrite set_bg_same. apply commit_same. exact En.
   - destruct (nth_error (ms s) a) as [m|] eqn:En; [|reflexivity].
     destruct xs as [|x [|x2 r]]; simpl in *; [discriminate| |lia].
     assert (Hx : ~ In x (nodes (bg m))).
@@ -201,13 +206,14 @@ Qed.
 
 Lemma step_cells_ok s o : good s -> cells_ok s -> op_ok o -> cells_ok (fst (step s o)).
 Proof.
-  intros Hg Hc Ho. destruct o as [eb lat|a xs ws lat|a es ws|a xs|a cs|a xs|a cs|a xs ip|a|a isd ns dr ip]; simpl in *.
+  intros Hg Hc Ho. destruct o as [eb lat|a xs ws lat|a es ws|a es strict|a xs|a cs|a xs|a cs|a xs ip|a|a isd ns dr ip]; simpl in *.
   - destruct (bn_add_edges_g g_empty eb) as [g o1]. destruct o1; [|exact Hc]. destruct (acyclicb g); exact Hc.
   - destruct (nth_error (ms s) a) as [m|]; [|exact Hc]. destruct (wlen_bad (length xs) ws); [exact Hc|].
     destruct (m_add_nodes s m (combine xs lat)) as [s' m'] eqn:E.
     simpl. exact (m_add_nodes_cells _ _ _ _ _ Hc E).
   - destruct (nth_error (ms s) a) as [m|]; [|exact Hc]. destruct (wlen_bad (length es) ws); [exact Hc|].
     destruct (bn_add_edges_g (bg m) es). exact Hc.
+  - destruct (nth_error (ms s) a) as [m|]; [|exact Hc]. destruct (bn_remove_edges_g (bg m) es strict). exact Hc.
   - destruct (nth_error (ms s) a) as [m|]; [|exact Hc]. destruct (m_remove_nodes s m xs) as [[s' m'] o1] eqn:E.
     simpl. exact (m_remove_nodes_cells _ _ _ _ _ _ Hc E).
   - destruct (nth_error (ms s) a) as [m|]; [|exact Hc]. destruct (m_add_cpds s m cs) as [[s' m'] o1] eqn:E.
@@ -294,7 +300,7 @@ Theorem rejected_op_no_change_full s o e :
   good s -> cells_ok s -> single o -> snd (step s o) = Err e -> fst (step s o) = s.
 Proof.
   intros Hg Hc Hs.
-  destruct o as [eb lat|a xs ws lat|a es ws|a xs|a cs|a xs|a cs|a xs ip|a|a isd ns dr ip];
+  destruct o as [eb lat|a xs ws lat|a es ws|a es strict|a xs|a cs|a xs|a cs|a xs ip|a|a isd ns dr ip];
     try (apply rejected_op_no_change; [exact Hg|exact Hs|exact (fun H => H)]).
   - (* remove_node *)
     destruct (nth_error (ms s) a) as [m|] eqn:En; [|simpl; rewrite En; intros _; reflexivity].
